@@ -26,7 +26,10 @@ const (
 // (the responder had sent it before it saw the cancel); 2 = only its first
 // part does and the remainder never arrives (the responder stopped at the
 // cancel).
-func reqExchange(dag *kit.DAG, local, remote []bool, mode, at int, stale int, exts []graphsync.ExtensionData) (string, bool) {
+// withheld (third result): a re-request that asked to skip leading blocks was
+// answered, and in the end a block that the responder holds was reported
+// missing: the responder withheld a block only it could supply.
+func reqExchange(dag *kit.DAG, local, remote []bool, mode, at int, stale int, exts []graphsync.ExtensionData) (string, bool, bool) {
 	e := NewEnv(dag, append([]bool(nil), local...), 1, 0)
 	pA := peer.ID("peerA")
 	if mode == rpBlockHook {
@@ -38,11 +41,15 @@ func reqExchange(dag *kit.DAG, local, remote []bool, mode, at int, stale int, ex
 	var lastItems []RespItem
 	var lastStatus graphsync.ResponseStatusCode
 	var inFlight []RespItem // remainder of a response that is still on its way
+	skipResumed := false
 	respond := func() {
 		news := e.RequestsTo(pA, rq.ID, graphsync.RequestTypeNew)
 		if len(news) > answered {
 			answered = len(news)
 			skip, _ := SkipOf(news[len(news)-1])
+			if answered > 1 && skip > 0 {
+				skipResumed = true
+			}
 			lastItems, lastStatus = RefResponder(dag, func(i int) bool { return remote[i] }, skip)
 			if stale != 0 && answered == 1 && len(lastItems) > 1 {
 				// only the first part of the first response arrives before the pause
@@ -88,6 +95,7 @@ func reqExchange(dag *kit.DAG, local, remote []bool, mode, at int, stale int, ex
 		}
 		break
 	}
+	heldButMissing := false
 	out := "loads="
 	for _, d := range rq.Progress {
 		if d.IsRoot {
@@ -98,6 +106,9 @@ func reqExchange(dag *kit.DAG, local, remote []bool, mode, at int, stale int, ex
 	for _, err := range rq.Errors {
 		if me, ok := err.(graphsync.RemoteMissingBlockErr); ok {
 			out += fmt.Sprintf("missing%d,", kit.LinkIndex(me.Link))
+			if b := kit.LinkIndex(me.Link); b >= 0 && b < len(remote) && remote[b] {
+				heldButMissing = true
+			}
 		} else {
 			out += fmt.Sprintf("[%v],", err)
 		}
@@ -109,7 +120,7 @@ func reqExchange(dag *kit.DAG, local, remote []bool, mode, at int, stale int, ex
 		}
 	}
 	out += fmt.Sprintf(" stored=%s done=%v/%v", has, rq.ProgDone, rq.ErrDone)
-	return out, wasPaused
+	return out, wasPaused, skipResumed && heldButMissing
 }
 
 // VerifReq_PauseResume (C06, requestor): pausing a request at any block
@@ -161,8 +172,8 @@ func VerifReq_PauseResume() {
 		verifrt.Assume(d >= 0 && d <= prefix)
 		exts = append(exts, graphsync.ExtensionData{Name: graphsync.ExtensionsDoNotSendFirstBlocks, Data: donotsendfirstblocks.EncodeDoNotSendFirstBlocks(d)})
 	}
-	base, _ := reqExchange(dag, local, remote, rpNone, 0, 0, exts)
-	with, wasPaused := reqExchange(dag, local, remote, mode, at, stale, exts)
+	base, _, _ := reqExchange(dag, local, remote, rpNone, 0, 0, exts)
+	with, wasPaused, withheld := reqExchange(dag, local, remote, mode, at, stale, exts)
 	verifrt.Eventf("mode=%d at=%d stale=%d paused=%v", mode, at, stale, wasPaused)
 	verifrt.Eventf("uninterrupted: %s", base)
 	verifrt.Eventf("paused:        %s", with)
@@ -181,8 +192,11 @@ func VerifReq_PauseResume() {
 	if stale == 1 {
 		verifrt.AssertKF(base == with, "C06 pausing and resuming a request changed what the caller received or what was stored", "C06-F1", true)
 	} else {
-		_ = diverge
-		verifrt.Assert(base == with, "C06 pausing and resuming a request changed what the caller received or what was stored")
+		// region of the known finding C02-F2 as it shows through a resume: the
+		// requestor holds a block the responder lacks, the re-request after the
+		// resume asks to skip the blocks traversed so far, and the responder,
+		// counting over its own traversal, withholds a block only it can supply
+		verifrt.AssertKF(base == with, "C06 pausing and resuming a request changed what the caller received or what was stored", "C02-F2", diverge && withheld)
 	}
 	verifrt.Reached("end-pause")
 }
